@@ -20,6 +20,7 @@ from .engine_k import Seams, SimRandom, bind, bootstrap, rel_close
 
 TOL_LOG = 1e-8
 UNDERFLOW = -690.0
+TINY = 1e-300  # below this a double is (nearly) denormal: treated like an underflowed zero
 
 
 # ---------------------------------------------------------------------------
@@ -49,7 +50,7 @@ def gen_config(rng, tier, flavor="db"):
         "n_reads": rng.choice([0, 1, 2, 3, 5, 8]),
         "data_seed": rng.randrange(2 ** 31),
         "gap_rate": rng.choice([0.0, 0.2, 0.5]),
-        "counts": rng.choice(["none", "ints"]),
+        "counts": rng.choice(["none", "ints", "ints", "big"] if flavor == "db" else ["none", "ints"]),
         "err_style": rng.choice(["norm", "third"]),
         "inbreeding": rng.choice([0.0, 0.0, 0.05, 0.3, 0.9]),
         "temperatures": temps,
@@ -99,7 +100,10 @@ def gen_reads(cfg):
             reads[r, j, a] = p
     # n_reads == 0: compiled MCHap reads read_counts[0] out of bounds and multiplies
     # it with log(1) = 0 (benign); interpreted NumPy raises IndexError.  Not modelled.
-    if cfg["counts"] == "ints" and n_reads > 0:
+    if cfg["counts"] == "big" and n_reads > 0:
+        # deep, nearly error-free data: likelihood ratios underflow double precision
+        counts = np.array([rng.choice([1, 20, 100, 400]) for _ in range(n_reads)], dtype=np.int64)
+    elif cfg["counts"] == "ints" and n_reads > 0:
         counts = np.array([rng.choice([1, 1, 2, 3, 5]) for _ in range(n_reads)], dtype=np.int64)
     else:
         counts = None
@@ -503,7 +507,7 @@ class AssembleSim:
             y = x.copy()
             y[h, j] = al
             lpy = T * self.lpost(y, inv) - ref.ln_nperm_haps(y)
-            if px[al] <= 0.0:
+            if px[al] <= TINY:
                 # forward underflow is acceptable only if theory says so
                 if lpy > -math.inf and lpx > -math.inf:
                     theo = min(0.0, lpy - lpx) - math.log(max(1, n_all - 1))
@@ -513,7 +517,7 @@ class AssembleSim:
                 self.ctx.counters.inc("underflow_skip")
                 continue
             py = self._probe_base(inv, a, y, h, j)
-            if py[cur] <= 0.0:
+            if py[cur] <= TINY:
                 theo = lpx + math.log(px[al]) - lpy
                 if theo > UNDERFLOW:
                     self.viol("detailed_balance_mutation", "reverse probability is 0 but the reference says log p = %.3f" % theo,
@@ -681,13 +685,13 @@ class AssembleSim:
             if lpx == -math.inf or lpy == -math.inf:
                 self.ctx.counters.inc("zero_density_skip")
                 continue
-            if pf <= 0.0 or pb <= 0.0:
-                theo = (lpy - lpx) if pf <= 0.0 else (lpx - lpy)
-                if pf <= 0.0 and pb <= 0.0:
+            if pf <= TINY or pb <= TINY:
+                theo = (lpy - lpx) if pf <= TINY else (lpx - lpy)
+                if pf <= TINY and pb <= TINY:
                     self.ctx.counters.inc("underflow_skip")
                     continue
                 # one side zero: other side must be explained by underflow
-                known = math.log(pb) if pf <= 0.0 else math.log(pf)
+                known = math.log(pb) if pf <= TINY else math.log(pf)
                 if known - theo > UNDERFLOW and theo > UNDERFLOW:
                     self.viol("detailed_balance_structural", "one direction has probability 0, the other %g" % math.exp(known),
                               x=x, y=y, interval=iv, step_type=st, temp=T)
